@@ -163,4 +163,104 @@ theorem sumLens_const (bs : List (List Nat)) (k : Nat) (h : ∀ b ∈ bs, b.leng
 
 theorem sumLens_eq (bs : List (List Nat)) : sumLens bs = (bs.map List.length).foldl (· + ·) 0 := rfl
 
+/-! ### codewords are bytes -/
+
+theorem gf_step_lt : ∀ a ∈ List.range 256, (if a * 2 ≥ 256 then (a * 2) ^^^ 0x11D else a * 2) < 256 := by decide +kernel
+
+theorem gfMulAux_lt : ∀ (f a b acc : Nat), a < 256 → acc < 256 → gfMulAux f a b acc < 256 := by
+  intro f
+  induction f with
+  | zero => intro a b acc _ h; exact h
+  | succ f ih =>
+    intro a b acc ha hacc
+    unfold gfMulAux
+    apply ih
+    · exact gf_step_lt a (List.mem_range.mpr ha)
+    · split
+      · exact Nat.xor_lt_two_pow (n := 8) hacc ha
+      · exact hacc
+
+theorem gfMul_lt (a b : Nat) (ha : a < 256) : gfMul a b < 256 := gfMulAux_lt 8 a b 0 ha (by omega)
+
+theorem zipWith_xor_lt (xs ys : List Nat) (hx : ∀ x ∈ xs, x < 256) (hy : ∀ y ∈ ys, y < 256) :
+    ∀ z ∈ List.zipWith (· ^^^ ·) xs ys, z < 256 := by
+  induction xs generalizing ys with
+  | nil => intro z hz; simp at hz
+  | cons x xs ih =>
+    cases ys with
+    | nil => intro z hz; simp at hz
+    | cons y ys =>
+      intro z hz
+      rw [List.zipWith_cons_cons, List.mem_cons] at hz
+      rcases hz with rfl | hz
+      · exact Nat.xor_lt_two_pow (n := 8) (hx x List.mem_cons_self) (hy y List.mem_cons_self)
+      · exact ih ys (fun a ha => hx a (List.mem_cons_of_mem _ ha)) (fun a ha => hy a (List.mem_cons_of_mem _ ha)) z hz
+
+/-- parity codewords are bytes -/
+theorem rsParity_lt (data : List Nat) (n : Nat) (hd : ∀ d ∈ data, d < 256) : ∀ p ∈ rsParity data n, p < 256 := by
+  unfold rsParity
+  simp only
+  generalize (rsGenerator n).drop 1 = g
+  have : ∀ (ds : List Nat) (reg : List Nat), (∀ d ∈ ds, d < 256) → (∀ r ∈ reg, r < 256) →
+      ∀ p ∈ ds.foldl (fun reg d => List.zipWith (· ^^^ ·) (reg.tail ++ [0]) (g.map (gfMul (d ^^^ reg.headD 0)))) reg, p < 256 := by
+    intro ds
+    induction ds with
+    | nil => intro reg _ h; exact h
+    | cons d ds ih =>
+      intro reg hds hreg
+      rw [List.foldl_cons]
+      apply ih _ (fun x hx => hds x (List.mem_cons_of_mem _ hx))
+      have hfb : d ^^^ reg.headD 0 < 256 := by
+        apply Nat.xor_lt_two_pow (n := 8) (hds d List.mem_cons_self)
+        cases reg with
+        | nil => simp
+        | cons r rs => exact hreg r List.mem_cons_self
+      apply zipWith_xor_lt
+      · intro x hx
+        rcases List.mem_append.mp hx with h | h
+        · exact hreg x (List.mem_of_mem_tail h)
+        · simp at h; omega
+      · intro y hy
+        obtain ⟨c, _, rfl⟩ := List.mem_map.mp hy
+        exact gfMul_lt _ _ hfb
+  exact this data _ hd (by intro r hr; simp at hr; omega)
+
+theorem mem_roundRobin : ∀ (f : Nat) (bs : List (List Nat)) (x : Nat), x ∈ roundRobin f bs → ∃ b ∈ bs, x ∈ b := by
+  intro f
+  induction f with
+  | zero => intro bs x h; simp [roundRobin] at h
+  | succ f ih =>
+    intro bs x h
+    unfold roundRobin at h
+    rcases List.mem_append.mp h with h | h
+    · obtain ⟨b, hb, hx⟩ := List.mem_filterMap.mp h
+      exact ⟨b, hb, List.mem_of_mem_head? hx⟩
+    · obtain ⟨t, ht, hx⟩ := ih _ x h
+      obtain ⟨b, hb, rfl⟩ := List.mem_map.mp ht
+      exact ⟨b, hb, List.mem_of_mem_tail hx⟩
+
+theorem mem_splitBlocks : ∀ (lens data : List Nat) (b : List Nat), b ∈ splitBlocks lens data → ∀ x ∈ b, x ∈ data := by
+  intro lens
+  induction lens with
+  | nil => intro data b h; simp [splitBlocks] at h
+  | cons l ls ih =>
+    intro data b h x hx
+    unfold splitBlocks at h
+    rcases List.mem_cons.mp h with rfl | h
+    · exact List.mem_of_mem_take hx
+    · exact List.mem_of_mem_drop (ih _ b h x hx)
+
+/-- every codeword of the final sequence is a byte -/
+theorem finalCodewords_lt (v : Nat) (ec : EC) (data : List Nat) (hd : ∀ d ∈ data, d < 256) :
+    ∀ c ∈ finalCodewords v ec data, c < 256 := by
+  intro c hc
+  unfold finalCodewords at hc
+  simp only at hc
+  rcases List.mem_append.mp hc with h | h
+  · obtain ⟨b, hb, hx⟩ := mem_roundRobin _ _ c h
+    exact hd c (mem_splitBlocks _ _ b hb c hx)
+  · obtain ⟨p, hp, hx⟩ := mem_roundRobin _ _ c h
+    obtain ⟨b, hb, rfl⟩ := List.mem_map.mp hp
+    exact rsParity_lt b _ (fun d hdb => hd d (mem_splitBlocks _ _ b hb d hdb)) c hx
+
 end Gzx.QRRef
